@@ -155,6 +155,17 @@ fn main() {
                 println!("replay {path}: property held");
                 exit(0);
             }
+            Err(f) if f.sig == "replay-parse" && check.sweeps.is_some() => {
+                // the record was written by a finite sweep of this check (not a
+                // generated case): replaying it means running the sweep again
+                let sctx = Ctx::new(&id, tier, seed, true);
+                (check.sweeps.unwrap())(&sctx);
+                if sctx.violation_count() > 0 {
+                    exit(1);
+                }
+                println!("replay {path}: property held (sweep re-run)");
+                exit(0);
+            }
             Err(f) => {
                 println!("VIOLATION property={id} replay={path}");
                 println!("  signature: {}", f.sig);
